@@ -39,7 +39,7 @@ META = {
 
 def engine_part(ctx):
     rng = ctx.rng
-    n = ctx.n(300, 2000)
+    n = ctx.n(220, 1500)
     cases, meta = [], []
     for i in range(n):
         shape, G = E.gen_graph(rng, E.SHAPES[i % len(E.SHAPES)] if i < 4 * len(E.SHAPES) else None)
@@ -60,6 +60,16 @@ def engine_part(ctx):
               [(False, [([1], False), ([2], False), ([], False)]), (False, [([0], False)]), (False, [([1], False)])]):
         cases.append((G, 40, True, [], [], [0, 2, 1]))
         meta.append("stale_member")
+    # the canonical "inner head turns ambiguous in its first iteration, is not the head of its component,
+    # and the outer head then asks for the node evaluated against the stale value" graph, for every seed
+    cases.append(([(False, [([1, 2], False)]), (False, [([2], False), ([], True), ([0], False)]), (False, [([1], False)])],
+                  40, False, [], [], [0, 2, 1]))
+    meta.append("nested_amb")
+    # every history with the cache on AND off (C10, second sentence): the twin of each case
+    for ci in range(len(cases)):
+        G, ov, ca, st, pa, hist = cases[ci]
+        cases.append((G, ov, not ca, st, pa, hist))
+        meta.append(meta[ci])
     # fresh runs of every goal that occurs last in some history, cache on and off
     fresh_idx = {}
     fresh_cases = []
